@@ -334,7 +334,7 @@ pub fn items(args: &Args) -> Vec<Item> {
     }
     cfgs::for_each_toy_sw!(toy_sw);
     cfgs::for_each_toy_te!(toy_te);
-    let iters = args.pick(60usize, 1500);
+    let iters = args.pick(100usize, 8000);
     macro_rules! sw {
         ($name:literal, $cfg:ty) => {
             v.push(Item::new(format!("c03/{}", $name), move |rep, rng, _| shipped::<SWm<$cfg>>($name, rep, rng, iters)));
